@@ -330,14 +330,23 @@ func (fr *Frame) libModel(callee *ssa.Function, args []Val, rt types.Type, pos t
 		vc.family("E_uint8", famSortFor("Int", 2))
 		cur := vc.lookup(fr.cur.heap, "E_uint8")
 		inner := "(select " + cur + " " + b.L[0] + ")"
+		// the bytes are the unique base-256 digits of v (linear characterisation instead of div/mod)
+		var digits []string
+		var sum []string
+		for i := 0; i < n; i++ {
+			d := vc.fresh("digit", "Int")
+			vc.assert("(and (>= " + d + " 0) (<= " + d + " 255))")
+			digits = append(digits, d)
+		}
 		for i := 0; i < n; i++ {
 			sh := n - 1 - i
 			if !big {
 				sh = i
 			}
-			byteV := fmt.Sprintf("(mod (div %s %s) 256)", v.T(), pow2(8*sh).String())
-			inner = fmt.Sprintf("(store %s (+ %s %d) %s)", inner, b.L[1], i, byteV)
+			sum = append(sum, fmt.Sprintf("(* %s %s)", pow2(8*sh).String(), digits[i]))
+			inner = fmt.Sprintf("(store %s (+ %s %d) %s)", inner, b.L[1], i, digits[i])
 		}
+		vc.assume(fr.curR, "(= "+v.T()+" (+ "+joinSp(sum)+"))")
 		fr.cur.heap = vc.heapSet(fr.cur.heap, "E_uint8", vc.define("E_uint8", vc.famSort["E_uint8"], "(store "+cur+" "+b.L[0]+" "+inner+")"))
 		return Val{Typ: rt}, true
 	}
